@@ -6,7 +6,25 @@ var schedAssume = []string{
 	"instrumentation is generated from /repo's working tree by a syntactic rewriter (imports redirected to forwarding shims)",
 }
 
+var seqAssume = []string{
+	"operation sequences respect the interface contracts as read from the doc comments (DESIGN.md 3/C01); one goroutine per buffer",
+	"states are deduplicated by a canonical key of the implementation's node chain plus the reference model's counters and live results",
+	"the pool allocator is replaced at build time by a never-reusing, poisoning, ledger-keeping one",
+}
+
 var plans = map[string]PropPlan{
+	"C01": {
+		Quick: []Plan{{Scenario: "lb", Kind: "seq"}}, Thorough: []Plan{{Scenario: "lb", Kind: "seq"}},
+		QuickSecs: 120, ThoroughSecs: 1500, Assumptions: seqAssume,
+	},
+	"C02": {
+		Quick: []Plan{{Scenario: "lb", Kind: "seq"}}, Thorough: []Plan{{Scenario: "lb", Kind: "seq"}},
+		QuickSecs: 120, ThoroughSecs: 1500, Assumptions: seqAssume,
+	},
+	"C03": {
+		Quick: []Plan{{Scenario: "lb", Kind: "seq"}}, Thorough: []Plan{{Scenario: "lb", Kind: "seq"}},
+		QuickSecs: 120, ThoroughSecs: 1500, Assumptions: seqAssume,
+	},
 	"C09": {
 		Quick:     []Plan{{Scenario: "conn.lifecycle", PB: 2, DB: 0}},
 		Thorough:  []Plan{{Scenario: "conn.lifecycle", PB: 3, DB: 0}},
